@@ -12,7 +12,7 @@ HOSTILE_STRINGS = [
     ("tab", "a\tb"), ("only-space", " "), ("unicode-escape-like", "\\u0041"),
 ]
 
-FIELD_IDENTS = ["r#type", "r#struct", "r#fn", "delete", "class", "function", "new", "void", "typeof", "instanceof", "ünï", "ñ",
+FIELD_IDENTS = ["r#type", "r#struct", "r#fn", "delete", "class", "function", "new", "void", "r#typeof", "instanceof", "ünï", "ñ",
                 "__a", "a1", "_1", "constructor", "prototype", "r#in", "r#enum", "default", "export", "import", "r#yield"]
 VARIANT_IDENTS = ["Delete", "Class", "Ünï", "Ñandú", "V_", "_V", "Null", "Undefined", "Object", "Function", "r#Await"]
 TYPE_NAMES = ["Ünï", "Ñ1", "_Lead", "Dollar_", "Ty1"]
@@ -21,7 +21,8 @@ DOC_TEXTS = [
     ("plain", " plain docs"), ("comment-end", " ends */ early"), ("comment-start", " /* opens"), ("glob", " see **/*.rs"),
     ("export-type", " export type X = 1;"), ("dquote", ' say "hi"'), ("backslash", " back\\slash"), ("non-ascii", " ünï 😀"),
     ("long", " " + "x" * 3000), ("at", " @param x {string}"), ("html", " <script>alert(1)</script>"), ("empty-line", ""),
-    ("star", " * bullet"), ("import", ' import type { A } from "./a";'),
+    ("star", " * bullet"), ("import", ' import type { A } from "./a";'), ("brace", ' json {"a": 1} and {} and {{x}}'),
+    ("percent", " 100% {0} %s"),
 ]
 
 
@@ -41,6 +42,19 @@ def doc_attr_lines(r, cls_text, form):
     if form == "block-blank":
         safe = text.replace("*/", "* /").replace("/*", "/ *")
         return [f"/**{safe}\n\n after an empty line */"]
+    if form == "block+line":
+        # a multi-line block followed by a line comment: two doc attributes, the first contains a line break
+        safe = text.replace("*/", "* /").replace("/*", "/ *")
+        return [f"/**{safe}\n more */", "/// trailing line"]
+    if form == "attr-multiline":
+        # one attribute whose text has a line break: emitted verbatim between /** and */
+        return [f"#[doc = {rs_str(text + chr(10) + ' second attr line')}]"]
+    if form == "attr-multiline+attr":
+        return [f"#[doc = {rs_str(text + chr(10) + ' second attr line')}]", '#[doc = " third attr"]']
+    if form == "block-nested":
+        # Rust block comments nest, so the documentation text itself may contain `/* .. */`
+        safe = text.replace("*/", "* /").replace("/*", "/ *")
+        return [f"/**{safe} /* nested */ tail\n more */"]
     raise ValueError(form)
 
 
@@ -111,7 +125,8 @@ class TextGen:
             position = r.choice({"named": ["container", "field"], "enum-struct-variant": ["container", "variant", "variant-field"],
                                  "tuple": ["container"], "enum-unit": ["container", "variant"], "flatten": ["flattened-field", "field"]}[shape])
             texts = [None, r.choice(DOC_TEXTS), r.choice(DOC_TEXTS)]
-            form = r.choice(["line", "two-lines", "attr", "block", "block-blank"])
+            form = r.choice(["line", "two-lines", "attr", "block", "block-blank", "block+line", "attr-multiline", "attr-multiline+attr",
+                             "block-nested"])
             for vi, t in enumerate(texts):
                 docs = doc_attr_lines(r, t, form) if t is not None else []
                 cdocs = docs if position == "container" else []
